@@ -744,16 +744,20 @@ func (cr *clRun) allRW() bool {
 	for _, r := range c.ctrl.ListReplicas() {
 		modes[r.Address] = r.Mode
 	}
-	n := 0
+	up, rw := 0, 0
 	for _, rn := range c.reps {
 		if rn.up {
-			if modes[rn.addr] != types.RW {
-				return false
+			up++
+			if modes[rn.addr] == types.RW {
+				rw++
 			}
-			n++
 		}
 	}
-	return n > 0 && len(modes) == n
+	want := up
+	if want > c.rf {
+		want = c.rf // a spare replica process can never be more than a candidate
+	}
+	return want > 0 && rw == want && len(modes) == want
 }
 
 func (cr *clRun) lockFree() bool {
@@ -1853,7 +1857,12 @@ func (clustersim) Generate(rng *Rand, prop, tier string) *Script {
 	if rng.Bool(30) {
 		s.Cfg["rpcto"] = int64(rng.Range(3, 20))
 	}
-	// (no spare replica processes: more replica pods than RF never exist in a deployment)
+	// Spare replica processes (more replica pods than RF) do not exist in an orderly deployment; a
+	// replacement pod that comes up under a new address while the old replica is still listed does.
+	// One spare in some of the membership-oriented runs: it is started by the first restart that names it.
+	if (prop == "C18" && rng.Bool(35)) || (prop == "C03" && rng.Bool(10)) {
+		s.Cfg["spares"] = 1
+	}
 	if rng.Bool(25) {
 		// sub-4KiB I/O: exposes known finding D12 whenever it meets a rebuild, which ends
 		// the run; most runs therefore stay block-aligned
